@@ -261,6 +261,15 @@ class Interp:
         if isinstance(target, ast.Name):
             env[target.id] = value
         elif isinstance(target, (ast.Tuple, ast.List)):
+            stars = [i for i, t in enumerate(target.elts) if isinstance(t, ast.Starred)]
+            if isinstance(value, (list, tuple)) and len(stars) == 1 and len(value) >= len(target.elts) - 1:
+                i = stars[0]
+                after = len(target.elts) - i - 1
+                vals = list(value)
+                parts = vals[:i] + [vals[i:len(vals) - after]] + vals[len(vals) - after:]
+                for t, v in zip(target.elts, parts):
+                    self.assign(t.value if isinstance(t, ast.Starred) else t, v, env)
+                return
             if not isinstance(value, (list, tuple)) or len(value) != len(target.elts):
                 raise Incomplete(site(target), 'tuple unpacking of a non-sequence')
             for t, v in zip(target.elts, value):
@@ -631,6 +640,16 @@ class Interp:
             return list(args[0]) if name == 'list' else tuple(args[0])
         if name == 'typing.cast' and len(args) == 2:
             return args[1]
+        if name in ('dataclasses.replace', 'equinox.tree_at') and name == 'dataclasses.replace' and len(args) == 1 and isinstance(args[0], Rec) and all(k in args[0].comps for k in kwargs):
+            comps = dict(args[0].comps)
+            comps.update(kwargs)
+            return Rec(args[0].cls, comps)
+        if name in ('jax.tree.leaves', 'jax.tree_util.tree_leaves') and len(args) == 1 and isinstance(args[0], Rec) and not kwargs:
+            return list(args[0].comps.values())
+        if name in ('jax.tree.leaves', 'jax.tree_util.tree_leaves') and len(args) == 1 and isinstance(args[0], (list, tuple)) and not kwargs and all(isinstance(x, Poly) for x in args[0]):
+            return list(args[0])
+        if name == 'type' and len(args) == 1 and isinstance(args[0], (Rec, SymObj)):
+            return ClassRef(args[0].cls)
         if name in ('jax.numpy.zeros_like', 'numpy.zeros_like') and args and isinstance(args[0], Poly):
             return Poly()
         if name in ('jax.numpy.ones_like', 'numpy.ones_like') and args and isinstance(args[0], Poly):
